@@ -30,6 +30,7 @@ from vf import core
 from vf.gen import npcatalog as nc
 from vf.gen import dyadic
 from vf.gen import c07_meta as meta
+from vf.monitors import c07_angle
 from vf.gen import c07_templates  # noqa: F401  (adds C07's own forms to the catalogue of this process)
 from vf.ref import dims as rdims, uexpr, names as rnames
 
@@ -65,6 +66,7 @@ ASSUMPTIONS = (
     "in every dyadic family a rounding-sized difference counts as held (counted, noted per function) when the two result leaves have different float widths: the coefficient / residue of a cancellation is applied as a float64 factor, so float32 data come back as float64 only in the run whose units do not cancel completely (precision and width of conversions are C17's subject); with equal widths bit-for-bit is required",
     "the ordinary-unit mixed families (m**1.5 with cm**1.5, J*km with N*cm*m) are driven only for multiplicative templates (tag product, not the floor family): where operands of one dimension in two ordinary units are added or compared unyt must convert one of them by an inexact factor (1e-3, through float32 for 32-bit data), which makes comparisons, floor and remainder undecidable and is C17's subject; additive and comparing calls on mixed units are judged with the dyadic pool only",
     "the binary ufuncs (add ... remainder, comparisons, arctan2; multiply/divide as controls) and the compositions reduce-then-combine, multiply/divide in the forms out=, .outer, 0-d operand, in-place operator with a quantity on the right, operator with both operands in one slot, and the compositions combine-then-reduce (np.mean(x/y) ...; divisors >= 1) are C07's own templates (vf/gen/c07_templates.py): fmod/remainder get divisors >= 1, comparisons small integers so that ties occur",
+    "angle units (vf/monitors/c07_angle.py): sin/cos/tan convert any angle unit to radian implicitly and return a bare number, so their result depends on the unit of the input although it carries none; this dimension is the stated exception to the exclusion of zero-point units (lat, lon, user-registered angle units with offset=). The harness writes one angle in every unit and reads it back with vf.ref.defs (radian = scale x (reading - zero point)), unyt converts nothing for the oracle; results must agree with the same door on radian readings and with NumPy on the radian magnitudes within 32 eps(dtype) x (|angle| + |zero point| + 1) x (1 + tan**2 for tan), bit-for-bit for a power-of-two multiple of the radian in float64; a door refused for radian input too (ufunc.at) is counted, not judged",
     "np.unique_values leaves the order of its result unspecified: compared as multisets",
     "mechanism key = C07:<function>[(<minimal set of optional parameters whose forms fail> | options)]:<failure kind>:<result leaf | out-buffer | operand#k>[:<data type class when float data do not show it>][:mixed-units | :commensurable-slots | :stale-units | :ordinary-units when only the mixed families / only the partial families / only the stale families / only ordinary units show it]; generic (no parenthesis) when the plain call form fails",
 )
@@ -184,7 +186,9 @@ def batches(tier, seed):
         b = min(bins, key=lambda x: x[0])
         b[0] += len(bf[n]) * (3 if n.startswith("numpy.linalg") or "quantile" in n or "percentile" in n else 1)
         b[1].append(n)
-    return [("functions/%d" % i, {"funcs": b[1], "seed": seed, "tier": tier}) for i, b in enumerate(bins) if b[1]]
+    # first-class dimension 'angle units' (vf/monitors/c07_angle.py): unary functions converting their input implicitly
+    return ([("angle-units/0", {"angle_units": True, "funcs": [], "seed": seed, "tier": tier})]
+            + [("functions/%d" % i, {"funcs": b[1], "seed": seed, "tier": tier}) for i, b in enumerate(bins) if b[1]])
 
 
 # ------------------------------------------------------------------------------------------------ reference scales
@@ -622,6 +626,8 @@ def worker(batch, rec):
     tier, seed = payload["tier"], payload["seed"]
     warnings.simplefilter("ignore")
     np.seterr(all="ignore")
+    if payload.get("angle_units"):
+        return c07_angle.run(rec, tier, seed)
     quick = tier == "quick"
     fams = FAM_QUICK if quick else FAM_THOROUGH
     dtypes = ("f8", "i8", "c16", "f4") if quick else ("f8", "i8", "c16", "f4", "i4", "c8")
@@ -1076,6 +1082,13 @@ def extra(tier, seed, results):
     for fk in ("compound-mixed", "partial"):
         for lk in ("unit", "bare"):
             deciding[f"{fk} families, {lk} leaves compared"] = counters.get(f"{fk}-units-{lk}-leaves-compared", 0)
+    deciding["angle units: calls of sin/cos/tan answered on angles written in a non-radian unit, compared with NumPy on the radian magnitudes"] = counters.get("angle-units-reference-comparisons", 0)
+    for cls in c07_angle.CLASSES[1:]:
+        deciding[f"angle units: bare results compared with the same angles written in radian, unit class {cls}"] = counters.get("angle-units-covariance-comparisons:" + cls, 0)
+    for door in c07_angle.DOORS[:-1]:          # ufunc.at is refused by unyt for every unit incl. radian (counted below), not gated
+        deciding[f"angle units: calls answered through door {door}"] = counters.get("angle-units-door:" + door, 0)
+    for sh in ("0d-quantity", "0d-array", "1d", "2d", "1d/strided", "2d/strided", "2d/T", "1d/reversed"):
+        deciding[f"angle units: calls answered on {sh} data"] = counters.get("angle-units-shape:" + sh, 0)
     if tier != "quick":
         deciding["rule 1, unit-carrying leaves compared within tolerance (ordinary units)"] = counters.get("rule1-unit-leaves:ordinary", 0)
     ok_batches = [r for _, r in results if r.get("status") == "ok"]
@@ -1091,6 +1104,7 @@ def extra(tier, seed, results):
                            "pairs_run": counters.get("stale-units-pairs-run", 0), "refused_in_the_stale_run_only": counters.get("stale-units-refused", 0),
                            "functions_with_a_compared_stale_pair": sorted(f for f in funcs if "stale-cmp:" + f in reached),
                            "functions_refusing_stale_pairs_only": sorted(f for f in funcs if "stale-refused:" + f in reached and "stale-cmp:" + f not in reached)},
+        "angle_units": {k: v for k, v in sorted(counters.items()) if k.startswith("angle-units")},
         "catalogue": {"templates": len(nc.catalog()), "functions_and_methods": len(funcs), "functions_with_a_compared_pair": len(cmp_)},
         "unreached": {"wrappable_without_template": nc.without_template(),
                       "never_compared": sorted(set(funcs) - cmp_ - refused),
